@@ -474,8 +474,13 @@ func frameOrRepeat(t *rapid.T, s Stream, maxLen int) []byte {
 // log files or a timing-sensitive oracle would turn those checks' watchdogs into load meters.
 var Counted bool
 
+// NoManyPairs switches the long runs of pairs off.  C11 and C13 set it: their oracles measure what has
+// happened by a certain moment, and tens of thousands of messages through a writer or reader that is slow on
+// purpose take longer than any watchdog should have to wait.
+var NoManyPairs bool
+
 func MaybeManyPairs(t *rapid.T) []Segment {
-	if rapid.IntRange(0, 149).Draw(t, "manyPairs") != 77 {
+	if rapid.IntRange(0, 149).Draw(t, "manyPairs") != 77 || NoManyPairs {
 		return nil
 	}
 	if Counted && rapid.IntRange(0, 2).Draw(t, "countedFrames") == 1 {
